@@ -1,4 +1,4 @@
-import BtcwVerif.Model.AddrDeriveStep
+import BtcwVerif.Model.AddrTx
 -- engine: addrmgr-derive
 import Driver.Proto
 open Proto AddrDerive AddrSym
@@ -122,6 +122,20 @@ def stepLine (d : DS) (line : String) : DS × String :=
     -- issuance is a function of the root key alone, so the answer is constant
     if !d.st.created then (d, "err notcreated || ") else
     if d.st.poisoned then (d, "err poisoned || ") else (d, "ok || ")
+  | some "rectx" =>
+    -- the transaction store records a transaction paying to an address: no address-manager row, the wtxmgr rows
+    -- (after " ## ") show the address id in the clear
+    if !d.st.created then (d, "err notcreated || ") else
+    if d.st.poisoned then (d, "err poisoned || ") else
+    match ((kv t "s").bind parseScope), (kv t "ref") with
+    | some sc, some r =>
+      match refDesc sc r with
+      | none => (d, "bad-op")
+      | some desc =>
+        let (s, res, rows) := wstep Cfg.fixed freeHD d.st (.recordTx desc)
+        ({ st := s }, showRes res ++ " || " ++ showRows ((rows.filter (·.1 == Ns.waddrmgr)).map (·.2)) ++ " ## " ++
+          showRows ((rows.filter (·.1 == Ns.wtxmgr)).map (·.2)))
+    | _, _ => (d, "bad-op")
   | _ =>
     if !d.st.created then (d, "err notcreated || ") else
     if d.st.poisoned then (d, "err poisoned || ") else
